@@ -90,6 +90,7 @@ type SymRun struct {
 	Prune            bool
 	SymbolicMapOrder bool
 	ConcreteFmt      bool
+	ForkPkgs         []string
 	ForkFuncs        []string
 	InitPkgs         func(string) bool
 	InitExtra        []string
@@ -145,6 +146,7 @@ func Exec(prog *ssa.Program, pkg *ssa.Package, modPrefix string, r SymRun) (*Sym
 	cfg.InitPkgs = r.InitPkgs
 	cfg.SymbolicMapOrder = r.SymbolicMapOrder
 	cfg.ConcreteFmt = r.ConcreteFmt
+	cfg.ForkPkgs = r.ForkPkgs
 	cfg.SkipInitFuncs = r.SkipInitFuncs
 	cfg.ForkFuncs = map[string]bool{}
 	for _, f := range r.ForkFuncs {
